@@ -62,6 +62,8 @@ func (n *dNode) Process(ctx context.Context, e *eventlogger.Event) (*eventlogger
 		// Send holds none of the Broker's locks while nodes run
 		n.h.b.RegisterNode("scratch", &dNode{p: 99, k: 0, out: 'p', ty: eventlogger.NodeTypeFilter, h: n.h})
 		n.h.b.IsAnyPipelineRegistered("t")
+		// ... including the pipeline map of the very type being sent (removing a pipeline that is not there)
+		n.h.b.RemovePipeline("t", "no-such-pipeline")
 	}
 	var out *eventlogger.Event
 	var err error
